@@ -105,6 +105,17 @@ class SimClientBase(BaseClient):
                 if detail == 'KeyError':
                     raise KeyError('simulated-missing-key')
                 raise Exception("simulated: unexpected provider failure")
+            if kind == 'lost_reply':
+                # the node acts on the request, the caller never sees the answer
+                view = CTX.views.get(self.pid, View())
+                try:
+                    rec['value'] = honest(view)
+                except Exception:
+                    raise
+                w.fault('bcast_lost_reply', pid=self.pid, method=method)
+                rec['exc'] = 'ReadTimeout'
+                import requests
+                raise requests.exceptions.ReadTimeout("simulated: reply lost")
             if kind == 'false':
                 w.fault('prov_false', pid=self.pid, method=method)
                 rec['value'] = False
